@@ -84,6 +84,8 @@ func main() {
 		os.Exit(cmdCheck(os.Args[2:]))
 	case "replay":
 		os.Exit(cmdReplay(os.Args[2:]))
+	case "native":
+		os.Exit(cmdNative(os.Args[2:]))
 	default:
 		fmt.Fprintln(os.Stderr, "unknown command")
 		os.Exit(2)
@@ -470,4 +472,50 @@ func runLemma(ld *loaded, l *Lemma, tier string, seed int, knownOpen map[string]
 		budget = time.Duration(l.TimeoutS) * time.Second
 	}
 	return RunLemma(mk, l, fn, time.Now().Add(budget), opts.MaxPaths)
+}
+
+// cmdNative runs harnesses natively with all inputs zero (translator / harness validation):
+// a harness that holds symbolically for every input must also pass natively on the zero input.
+func cmdNative(args []string) int {
+	if len(args) < 1 {
+		fmt.Fprintln(os.Stderr, "usage: gosym native <PROP> [lemma]")
+		return 2
+	}
+	var lemmas []*Lemma
+	if err := loadJSON(filepath.Join(verifDir, "spec", "lemmas.json"), &lemmas); err != nil {
+		fmt.Println(err)
+		return 2
+	}
+	rc := 0
+	for _, l := range lemmas {
+		if l.Property != args[0] || (len(args) > 1 && l.ID != args[1]) {
+			continue
+		}
+		if b, err := os.ReadFile(filepath.Join(verifDir, "harness", l.Pkg, "DEPS")); err == nil {
+			l.Shims = append(l.Shims, strings.Fields(string(b))...)
+		}
+		dir := filepath.Join(verifDir, "replays", "_native", strings.ReplaceAll(l.ID, ".", "_"))
+		v := Violation{Kind: "native", ID: "zero-input", Model: map[string]interface{}{}}
+		if err := writeReplayBundle(dir, l, v); err != nil {
+			fmt.Println(l.ID, "bundle error:", err)
+			rc = 2
+			continue
+		}
+		ok, out := runReplay(dir, v)
+		_ = ok
+		status := "PASS"
+		if !strings.Contains(out, "VF-HARNESS-END") && !strings.Contains(out, "VF-ASSUME-FALSE") {
+			status = "FAIL"
+			rc = 1
+		}
+		fmt.Printf("native %-8s %s\n", l.ID, status)
+		if status == "FAIL" {
+			tail := out
+			if len(tail) > 1200 {
+				tail = tail[len(tail)-1200:]
+			}
+			fmt.Println(indent(tail, "    | "))
+		}
+	}
+	return rc
 }
